@@ -69,6 +69,23 @@ def build_repo_cli():
     return os.path.join(BUILD, "repo-target", "release", "hpbf")
 
 
+MIRI_ENV = {"CARGO_TARGET_DIR": os.path.join(BUILD, "target-miri"), "MIRIFLAGS": "-Zmiri-disable-isolation"}
+MIRI = ["cargo", "+nightly", "miri", "run", "--offline", "-q", "--"]
+
+
+def build_miri():
+    t0 = time.time()
+    env = dict(ENV)
+    env.update(MIRI_ENV)
+    r = subprocess.run(MIRI + ["help"], cwd=HARNESS, env=env, capture_output=True, text=True)
+    if r.returncode not in (0, 2):
+        log(r.stderr[-4000:])
+        log("BUILD FAILED (miri)")
+        sys.exit(2)
+    log(f"[build miri: {time.time() - t0:.1f}s]")
+    return MIRI
+
+
 def run_shards(binary, cmd, prop, tag, seed, tier, nshards, count, secs, extra=(), env_extra=None, wrapper=()):
     """Run `nshards` processes of `hv cmd`; returns list of parsed result dicts."""
     outdir = os.path.join(OUT, prop, tag)
@@ -81,11 +98,11 @@ def run_shards(binary, cmd, prop, tag, seed, tier, nshards, count, secs, extra=(
         out = os.path.join(outdir, f"shard{i}.json")
         if os.path.exists(out):
             os.remove(out)
-        argv = list(wrapper) + [binary, cmd, "--prop", prop, "--seed", str(seed), "--shard", str(i), "--nshards", str(nshards),
+        argv = list(wrapper) + (list(binary) if isinstance(binary, (list, tuple)) else [binary]) + [cmd, "--prop", prop, "--seed", str(seed), "--shard", str(i), "--nshards", str(nshards),
                                 "--count", str(count), "--secs", str(secs), "--tier", tier, "--out", out,
                                 "--replay-dir", os.path.join(OUT, "replays", prop), "--corpus", os.path.join(ROOT, "corpus")] + list(extra)
         lf = open(os.path.join(outdir, f"shard{i}.log"), "w")
-        procs.append((subprocess.Popen(argv, stdout=lf, stderr=subprocess.STDOUT, env=env), out, lf))
+        procs.append((subprocess.Popen(argv, stdout=lf, stderr=subprocess.STDOUT, env=env, cwd=HARNESS), out, lf))
     results = []
     for p, out, lf in procs:
         rc = p.wait()
@@ -346,6 +363,51 @@ def check_diff(prop, tier, seed, level="exploration", profiles=("release",), qui
                   floors=list(floors) + [("distinct_nontrivial", 50), ("oracle_crosscheck_agree", 20)])
 
 
+PROP_RULES = {
+    "C09": ("one case = one random history (300 operations: mov / read / write / make_accessible / check / check_ptr / current_ptr+set_current_ptr, "
+            "offsets of both signs, ranges extending below, above and on both sides of the allocation, pointer parked up to 2^40 cells away for reads and "
+            "checks) on a fresh hpbf::runtime::Memory, at one width, under one allocator placement (guard page right / left / system); after every "
+            "operation the touched cell is compared with a HashMap model, after every operation that allocated all model cells and all promised ranges "
+            "are re-checked. distinct_nontrivial counts distinct (seed, width, history index) triples (capped sample per shard); every history contains writes and growth."),
+    "C14": ("evaluations = individual postcondition checks of wrapping_div / wrapping_inv / wrapping_pow / conversions / shifts written from their definitions; "
+            "8 bit: all 65536 (n,d) pairs and all (base,exp) pairs; 16 bit: all divisors x 256 numerators (quick) or all 2^32 pairs (thorough); 32/64 bit: every "
+            "(tz(n),tz(d)) grid cell plus random and boundary operands. distinct_nontrivial counts distinct sampled (width,n,d) operand pairs outside the exhaustive part."),
+    "C15": ("one case = one random expression pair built only through the public Expr API (val, var, add, mul, neg, half, normalize, symb_evaluate) with "
+            "coefficients biased to 1, -1, 2^(w-1), 2^(w-1)+-1 and few variable names (so x*x is common), evaluated under 8 assignments chosen to hit the "
+            "half-modulus logic; each operation's value is compared with arithmetic on the operand values and every decomposition is recomposed. "
+            "distinct_nontrivial counts distinct expressions with >= 2 terms of which one is a product of >= 2 variables."),
+    "C18": ("one case = one random history (120 operations over a pool of up to 5 vectors: constructors, push, extend, clear, retain, retain_mut, dedup, sort, "
+            "clone, eq/cmp/hash, index, iter, iter_mut, by-value iteration consumed fully / partly / not at all, drop) for inline capacity N in {1,2,4} and element "
+            "types with (drop-tracked, boxed) and without destructor; after every operation the slice view is compared with a Vec model and the number of live tracked "
+            "elements with the number held. distinct_nontrivial counts distinct (seed, N, element type, history index) tuples (capped sample per shard)."),
+}
+
+PROP_ASSUME = {
+    "C09": ["writes and requested ranges stay within 2^17 cells of touched territory so the model never asks for gigabytes (the only restriction on the quantifier)",
+            "guard pages detect out-of-allocation accesses of the tape; accesses landing inside another live allocation are not detected (one mapping per allocation makes that unlikely)"],
+    "C14": ["u128 reference arithmetic in the harness"],
+    "C15": ["value-level equality under sampled assignments (8 per expression), not symbolic equality"],
+    "C18": ["Vec as the model", "leaks are detected by the live-element table, UB by the Miri stage"],
+}
+
+
+def check_props(prop, tier, seed, cmd, quick, thorough, miri_quick=None, miri_thorough=None, extra=(), floors=()):
+    t0 = time.time()
+    merged = Merge()
+    count = thorough if tier == "thorough" else quick
+    b = build("release")
+    res = run_shards(b, cmd, prop, "release", seed, tier, NCPU, count, 3600, extra=extra)
+    merged.add("release", res)
+    mcount = miri_thorough if tier == "thorough" else miri_quick
+    if mcount:
+        m = build_miri()
+        res = run_shards(m, cmd, prop, "miri", seed, tier, NCPU, mcount[0], 3600, extra=list(extra) + list(mcount[1]), env_extra=MIRI_ENV)
+        merged.add("miri", res)
+        merged.counters["miri_histories_or_cases"] = merged.stage_counters.get("miri", {}).get("evaluations", 0)
+    return finish(prop, tier, seed, "exploration", merged, t0, PROP_RULES[prop], PROP_ASSUME[prop] + ["Miri (nightly) as the UB oracle for the reduced workload"],
+                  floors=list(floors) + [("distinct_nontrivial", 20)])
+
+
 def main():
     if len(sys.argv) < 2:
         print(__doc__)
@@ -370,6 +432,10 @@ def main():
         "C06": lambda: check_diff("C06", tier, seed, quick=(6000, 90), thorough=(120000, 900)),
         "C07": lambda: check_diff("C07", tier, seed, quick=(4000, 90), thorough=(80000, 900)),
         "C08": lambda: check_diff("C08", tier, seed, level="fault_enumeration", quick=(3000, 90), thorough=(60000, 900)),
+        "C09": lambda: check_props("C09", tier, seed, "c09", 2000, 40000, miri_quick=(1, ["--ops", "120"]), miri_thorough=(12, ["--ops", "200"]), floors=[("growths_observed", 1000), ("requests_extending_both_sides", 10)]),
+        "C14": lambda: check_props("C14", tier, seed, "c14", 200000, 5000000, miri_quick=(10, []), miri_thorough=(400, [])),
+        "C15": lambda: check_props("C15", tier, seed, "c15", 8000, 600000, miri_quick=(2, []), miri_thorough=(80, [])),
+        "C18": lambda: check_props("C18", tier, seed, "c18", 4000, 200000, miri_quick=(3, ["--ops", "60"]), miri_thorough=(40, ["--ops", "100"]), floors=[("drop_audits", 1000), ("by_value_iterations", 100)]),
         "C10": lambda: check_diff("C10", tier, seed, quick=(8000, 90), thorough=(160000, 900)),
     }
     if prop not in table:
